@@ -1,3 +1,110 @@
+//! C04 - Every uplink follows the WARP link state machine; no fabricated frames.
+//! Leg `as-*` (E1): the real agent + runtime future under the deviation-bounded schedule explorer.
+
+use asys::grid::{replay, run_grid, GridSpec};
+use asys::oracle::check_c04;
+use asys::scripts::*;
+use asys::world::{set_checker, Cfg, Mode, Step};
+use vcommon::Ctx;
+
+fn pool() -> Vec<Vec<Step>> {
+    vec![
+        vec![link("v"), cmd("v", "1"), unlink("v")],
+        vec![sync("v"), cmd("v", "2")],
+        vec![link("v"), sync("v"), unlink("v")],
+        vec![link("x"), sync("x")],
+        vec![link("v"), link("v"), unlink("v"), unlink("v")],
+        vec![sync("m"), act(&["@upd{k:1,v:1}", "@upd{k:2,v:2}"]), unlink("m")],
+        vec![link("s"), act(&["@push(1)", "@push(2)", "@push(3)"])],
+        vec![unlink("v"), sync("v")],
+        vec![link("m"), act(&["@upd{k:1,v:1}", "@rem(1)", "@clr"])],
+        vec![act(&["@setv(3)", "@setv(4)"]), sync("v")],
+        vec![sync("v"), sync("w"), cmd("w", "9"), unlink("v")],
+    ]
+}
+
+fn alternating(a: &[Step], b: &[Step]) -> Vec<(usize, Step)> {
+    let mut out = vec![];
+    let n = a.len().max(b.len());
+    for i in 0..n {
+        if i < a.len() {
+            out.push((0, a[i].clone()));
+        }
+        if i < b.len() {
+            out.push((1, b[i].clone()));
+        }
+    }
+    out
+}
+
 fn main() {
-    vcommon::machinery_failure("C04: engine not built yet");
+    let ctx = Ctx::from_env("C04");
+    set_checker(check_c04);
+    if let Some(r) = ctx.replay_request() {
+        replay(&ctx, r);
+        ctx.finish("model_checking", "replay");
+    }
+    let quick = ctx.quick();
+    let p = pool();
+    // --- leg 1: full grid, d <= 1
+    let mut cfgs = vec![];
+    for (i, a) in p.iter().enumerate() {
+        for (j, b) in p.iter().enumerate() {
+            if quick && (i + 2 * j) % 3 != 0 {
+                continue; // quick tier: a third of the pairs (deterministic selection)
+            }
+            for script in [alternating(a, b), sequential(&[a.clone(), b.clone()])] {
+                for cap in [8usize, 64, 4096] {
+                    for budget in [2usize, 64] {
+                        for mode in [Mode::Eager, Mode::Burst, Mode::SlowRead] {
+                            let mut c = Cfg::basic(script.clone(), 2);
+                            c.cap = cap;
+                            c.budget = budget;
+                            c.mode = mode;
+                            cfgs.push(c);
+                        }
+                    }
+                }
+            }
+        }
+    }
+    run_grid(&ctx, GridSpec { name: "as-grid-d1".into(), cfgs, bound: 1, max_exec_per_cfg: 20_000, wall_cap_s: if quick { 25.0 } else { 600.0 } });
+
+    // --- leg 2: single-remote core, d <= 2 (3 thorough)
+    let mut cfgs = vec![];
+    for a in p.iter() {
+        for cap in [8usize, 4096] {
+            for budget in [2usize, 64] {
+                let mut c = Cfg::basic(sequential(&[a.clone()]), 1);
+                c.cap = cap;
+                c.budget = budget;
+                cfgs.push(c);
+            }
+        }
+    }
+    run_grid(&ctx, GridSpec { name: "as-core-d2".into(), cfgs, bound: if quick { 2 } else { 3 }, max_exec_per_cfg: if quick { 30_000 } else { 2_000_000 }, wall_cap_s: if quick { 15.0 } else { 900.0 } });
+
+    // --- leg 3: faults (stop / remote disconnect at every position), d <= 1 (2 thorough)
+    let mut cfgs = vec![];
+    for (i, a) in p.iter().enumerate() {
+        let b = &p[(i + 5) % p.len()];
+        for cap in [8usize, 4096] {
+            for (fs, fd) in [(true, false), (false, true)] {
+                let mut c = Cfg::basic(alternating(a, b), 2);
+                c.cap = cap;
+                c.budget = if cap == 8 { 2 } else { 64 };
+                c.fault_stop = fs;
+                c.fault_drop = fd;
+                cfgs.push(c);
+            }
+        }
+    }
+    run_grid(&ctx, GridSpec { name: "as-faults".into(), cfgs, bound: if quick { 1 } else { 2 }, max_exec_per_cfg: if quick { 20_000 } else { 1_000_000 }, wall_cap_s: if quick { 15.0 } else { 900.0 } });
+
+    ctx.assume("tokio select! start index and HashMap iteration order are fixed per VERIF_SEED (deterministic interposer), not enumerated");
+    ctx.assume("schedule switches happen only where the subject future returns Pending (plus the forced yields of the coop budget)");
+    ctx.finish(
+        "model_checking",
+        "deviation-bounded exhaustive schedule exploration of the real agent+runtime future with scripted remotes; frame-level state machine and body provenance oracle",
+    );
 }
